@@ -99,6 +99,8 @@ fn obs_f64(lit: &str) -> String {
         };
         let mut parts = vec![a, b, c, d];
         if e != parts[0] { parts.push(format!("after-failed-f32:{}", e)); }
+        #[cfg(all(feature = "fr", feature = "rv"))]
+        for (name, o) in via_raw64(&l) { if o != parts[0] { parts.push(format!("{}:{}", name, o)); } }
         merge(parts)
     })
 }
@@ -111,9 +113,51 @@ fn obs_f32(lit: &str) -> String {
         let doc = format!("[{} ,{}]\n", l, l);
         let c = show_res(&serde_json::from_reader::<_, Vec<f32>>(Chunked::new(doc.as_bytes(), vec![2, 5])),
                          |v| if v.len() == 2 && v[0].to_bits() == v[1].to_bits() { b32(&v[0]) } else { "LEN".into() });
-        merge(vec![a, b, c])
+        let mut parts = vec![a, b, c];
+        #[cfg(all(feature = "fr", feature = "rv"))]
+        for (name, o) in via_raw32(&l) { if o != parts[0] { parts.push(format!("{}:{}", name, o)); } }
+        merge(parts)
     })
 }
+
+/// The RawValue source (`impl Deserializer for &RawValue`, `src/raw.rs`; float_roundtrip + raw_value builds): the literal is
+/// captured as a `Box<RawValue>` (alone from a str, and as the elements of an array from a reader) and the float is deserialised
+/// FROM the RawValue — `T::deserialize(&*raw)`, `T::deserialize((&*raw).into_deserializer())`, a one-field struct and a
+/// one-element tuple out of a RawValue holding `{"x":lit}` / `[lit]`. A path is reported only when it differs from the first one.
+#[cfg(all(feature = "fr", feature = "rv"))]
+macro_rules! via_raw {
+    ($name:ident, $t:ty, $show:ident) => {
+        fn $name(l: &str) -> Vec<(&'static str, String)> {
+            use serde::de::IntoDeserializer;
+            use serde::Deserialize;
+            use serde_json::value::RawValue;
+            #[derive(serde::Deserialize)]
+            struct W { x: $t }
+            let mut out: Vec<(&'static str, String)> = vec![];
+            match serde_json::from_str::<Box<RawValue>>(l) {
+                Ok(raw) => {
+                    out.push(("raw-deserialize", show_res(&<$t>::deserialize(&*raw), $show)));
+                    out.push(("raw-into-deserializer", show_res(&<$t>::deserialize((&*raw).into_deserializer()), $show)));
+                }
+                Err(_) => out.push(("raw-capture", "NORAW".into())),
+            }
+            let doc = format!("[ {} , {}]", l, l);
+            match serde_json::from_reader::<_, Vec<Box<RawValue>>>(Chunked::new(doc.as_bytes(), vec![4, 1])) {
+                Ok(raws) => for raw in raws.iter() { out.push(("raw-element", show_res(&<$t>::deserialize(&**raw), $show))); },
+                Err(_) => out.push(("raw-capture-elements", "NORAW".into())),
+            }
+            let obj = format!("{{\"x\":{}}}", l);
+            if let Ok(raw) = serde_json::from_str::<Box<RawValue>>(&obj) { out.push(("raw-struct-field", show_res(&W::deserialize(&*raw), |w: &W| $show(&w.x)))); }
+            let arr = format!("[{}]", l);
+            if let Ok(raw) = serde_json::from_str::<Box<RawValue>>(&arr) { out.push(("raw-tuple-element", show_res(&<($t,)>::deserialize(&*raw), |w: &($t,)| $show(&w.0)))); }
+            out
+        }
+    };
+}
+#[cfg(all(feature = "fr", feature = "rv"))]
+via_raw!(via_raw64, f64, b64);
+#[cfg(all(feature = "fr", feature = "rv"))]
+via_raw!(via_raw32, f32, b32);
 
 fn class(o: &str) -> &'static str { if o == "E" { "range" } else if o.starts_with('B') { "ok" } else { "other" } }
 fn emit64(sink: &mut Sink, lit: &str, tag: &str) { let o = obs_f64(lit); sink.case("f64rt", &[&hexf(lit.as_bytes())], &o, &format!("f64:{}:{}", tag, class(&o)), lit.len() > 1); }
